@@ -8,7 +8,7 @@
 # Then the patch, the demonstration and meta.json are stored; nothing is ever committed to /repo.
 set -u
 WT="$1"; L="$2"; PROP="$3"
-ID="${PROP}-${L}"
+ID="${PROP}-${4:-}${L}"
 PATCH="$WT/mutant${L}.diff"; DEMO="$WT/demo/demo_${L}.rs"
 [ -f "$PATCH" ] && [ -f "$DEMO" ] || { echo "$ID: missing $PATCH or $DEMO"; exit 2; }
 SCR=/tmp/sv-$ID
